@@ -8,7 +8,6 @@
 """
 import importlib
 import json
-import multiprocessing
 import os
 import subprocess
 import sys
@@ -364,11 +363,33 @@ def one(m):
     return out
 
 
+def run_tasks(script, tasks, jobs, timeout=900):
+    """run `script --task FILE` once per task, at most `jobs` at a time, each in a fresh process
+    (a crash or a hang of one task is reported for that task instead of blocking the run)"""
+    import tempfile
+    from concurrent.futures import ThreadPoolExecutor
+    tdir = tempfile.mkdtemp(prefix="tasks_", dir=os.environ["VERIF_WORK"])
+
+    def run(i):
+        path = os.path.join(tdir, "t%d.json" % i)
+        with open(path, "w") as f:
+            json.dump(tasks[i], f)
+        try:
+            p = subprocess.run([sys.executable, script, "--task", path], capture_output=True, text=True,
+                               timeout=timeout)
+        except subprocess.TimeoutExpired:
+            return {"crash": "task did not finish within %d s" % timeout}
+        for line in p.stdout.splitlines():
+            if line.startswith("RESULT "):
+                return json.loads(line[7:])
+        return {"crash": "task process exited with status %d: %s" % (p.returncode, p.stderr[-600:])}
+    with ThreadPoolExecutor(max(1, min(jobs, len(tasks)))) as ex:
+        return list(ex.map(run, range(len(tasks))))
+
+
 def main(payload):
     cases = payload["cases"]
     jobs = int(payload.get("jobs", 6))
-    devnull = os.open(os.devnull, os.O_WRONLY)
-    os.dup2(devnull, 2)                    # compiler warnings of the generated modules
     mods = []
     for m in cases:
         csrc, cdefs, twins = module_texts(m)
@@ -376,13 +397,18 @@ def main(payload):
     allfacts, err = run_facts(mods, os.path.join(os.environ["VERIF_WORK"], "facts_%d" % os.getpid()))
     if err:
         return dict(results=[dict(name=m["name"], harness_error=err) for m in cases])
-    with multiprocessing.Pool(min(jobs, len(cases))) as pool:
-        results = pool.map(one, cases, chunksize=1)
+    results = run_tasks(os.path.abspath(__file__), cases, jobs)
     for m, r in zip(cases, results):
         r["facts"] = allfacts.get(m["name"], {})
     return dict(results=results)
 
 
 if __name__ == "__main__":
-    from lib.vlib import worker_main
-    worker_main(main)
+    devnull = os.open(os.devnull, os.O_WRONLY)
+    os.dup2(devnull, 2)                    # compiler warnings of the generated modules
+    if len(sys.argv) == 3 and sys.argv[1] == "--task":
+        res = one(json.load(open(sys.argv[2])))
+        sys.stdout.write("\nRESULT " + json.dumps(res) + "\n")
+    else:
+        from lib.vlib import worker_main
+        worker_main(main)
